@@ -28,6 +28,7 @@ var r *ev.Run
 type scenario struct {
 	Name    string       `json:"name"`
 	Mainnet bool         `json:"mainnet"`
+	PageSize int         `json:"page_size,omitempty"` // events per page of the node's event log (0 = 100)
 	Tokens  map[string]alphh.TokenAnswer `json:"tokens,omitempty"`
 	Steps   []alphh.Step `json:"steps"`
 }
@@ -140,6 +141,20 @@ func bases() []scenario {
 		st := []alphh.Step{{Op: "emit", Msg: &m, Block: 1, Height: 11}, {Op: "emit", Msg: &l, Block: 1, Height: 11}, {Op: "evtick"}, {Op: "height+", Height: 2}, {Op: "clock", Sec: 40}, {Op: "htick"}, {Op: "reobs", Tx: m.Tx}}
 		out = append(out, scenario{Name: "legit+lookalike in one tx/testnet", Steps: st})
 	}
+	// one poll that spans several pages of the event log (three / five messages, pages of one or two events)
+	for _, n := range []int{3, 5} {
+		for _, ps := range []int{1, 2} {
+			var st []alphh.Step
+			for i := 0; i < n; i++ {
+				m := mkMsg("transfer", 1)
+				m.Seq, m.Tx = fmt.Sprint(5+i), alphh.TxID(1+i)
+				mm := m
+				st = append(st, alphh.Step{Op: "emit", Msg: &mm, Block: 1, Height: 11})
+			}
+			st = append(st, alphh.Step{Op: "evtick"}, alphh.Step{Op: "htick"}, alphh.Step{Op: "height+", Height: 1}, alphh.Step{Op: "clock", Sec: 17}, alphh.Step{Op: "htick"}, alphh.Step{Op: "evtick"}, alphh.Step{Op: "htick"})
+			out = append(out, scenario{Name: fmt.Sprintf("%d-messages-in-one-poll/pages-of-%d/testnet", n, ps), PageSize: ps, Steps: st})
+		}
+	}
 	// two messages in one block with different consistency levels
 	{
 		a, b := mkMsg("transfer", 1), mkMsg("transfer", 3)
@@ -188,7 +203,11 @@ var executions, forwards, stimuli, curItem int
 
 func run(sc scenario, steps []alphh.Step, check bool) (fwd []string) {
 	executions++
-	w := alphh.NewWorld(sc.Mainnet, 10, 100)
+	ps := sc.PageSize
+	if ps == 0 {
+		ps = 100
+	}
+	w := alphh.NewWorld(sc.Mainnet, 10, ps)
 	defer w.Close()
 	for k, v := range sc.Tokens {
 		w.Sim.Tokens[k] = v
@@ -244,7 +263,7 @@ func viol(sc scenario, steps []alphh.Step, key, what string) {
 	for _, s := range steps {
 		pretty = append(pretty, s.String())
 	}
-	r.Violation(key, what+"  ["+sc.Name+"]  history: "+strings.Join(pretty, " "), scenario{Name: sc.Name, Mainnet: sc.Mainnet, Tokens: sc.Tokens, Steps: steps})
+	r.Violation(key, what+"  ["+sc.Name+"]  history: "+strings.Join(pretty, " "), scenario{Name: sc.Name, Mainnet: sc.Mainnet, PageSize: sc.PageSize, Tokens: sc.Tokens, Steps: steps})
 }
 
 func main() {
